@@ -412,3 +412,54 @@ pub fn check_hostile(c: &HostileCase, agg: &mut Agg) -> Result<(), String> {
 pub fn run_hostile(cases: u64, seed: u64, p: &Profile) -> RunOutput {
     drive(|| hostile_case(p), cases, seed, 161, |c: &HostileCase, agg: &mut Agg| check_hostile(c, agg))
 }
+
+// ------------------------------------------------------------------ C16: treasury entry points
+
+/// The treasury op sequences of C13 and the handover sequences of C12, judged only for panics,
+/// plus instantiate with arbitrary admin / trader strings.
+pub fn run_treasury_hostile(cases: u64, seed: u64) -> RunOutput {
+    let mut out = drive(crate::props_treasury::tcase, cases, seed, 162, |c: &crate::props_treasury::TCase, agg: &mut Agg| {
+        let mut scratch = Agg::default();
+        match crate::props_treasury::check_tcase(c, &mut scratch) {
+            Err(m) if m.contains("PANIC") => Err(format!("treasury: {m}")),
+            _ => {
+                agg.evaluations += 1;
+                *agg.counters.entry("treasury_sequences".into()).or_insert(0) += 1;
+                agg.nontrivial.extend(scratch.nontrivial.iter());
+                Ok(())
+            }
+        }
+    });
+    let o2 = drive(
+        || ("[ -~]{0,70}", "[ -~]{0,70}", any::<bool>(), any::<bool>()),
+        cases / 4 + 1,
+        seed,
+        163,
+        |c: &(String, String, bool, bool), agg: &mut Agg| {
+            let admin = crate::world::acct("osmo", "ta", 20);
+            let msg = treasury::msg::InstantiateMsg {
+                admin: if c.2 { Some(c.0.clone()) } else { None },
+                trader: if c.3 { Some(c.1.clone()) } else { None },
+                allowed_swap_routes: vec![vec![]],
+            };
+            match crate::props_treasury::TreasuryBox::new(&admin, msg) {
+                Err(m) if m.contains("PANIC") => Err(format!("treasury instantiate(admin={:?}, trader={:?}): {m}", c.0, c.1)),
+                Err(_) => {
+                    agg.evaluations += 1;
+                    agg.nontrivial.insert(crate::runner::fnv_pub(&format!("{:?}", c)));
+                    Ok(())
+                }
+                Ok(tb) => {
+                    agg.evaluations += 1;
+                    match tb.config() {
+                        Err(m) if m.contains("PANIC") => Err(format!("treasury Config query after instantiate: {m}")),
+                        _ => Ok(()),
+                    }
+                }
+            }
+        },
+    );
+    out.agg.absorb(&o2.agg);
+    out.failures.extend(o2.failures);
+    out
+}
